@@ -162,6 +162,28 @@ func doSM(full string, value []byte) string {
 	if err := populate(m, value); err != nil {
 		return "populate-error " + strings.ReplaceAll(err.Error(), " ", "_")
 	}
+	return sizeMarshal(m)
+}
+
+// US: the same on a message obtained from the GENERATED Unmarshal of the input (any legal encoding, not only the
+// canonical one: what the decoder leaves behind in the message must not mislead Size / Marshal)
+func doUS(full string, input []byte) string {
+	m, err := newMessage(full)
+	if err != nil {
+		return "driver-error " + err.Error()
+	}
+	if r := guard(func() string {
+		if err := m.(unmarshaler).Unmarshal(input); err != nil {
+			return "uerr"
+		}
+		return ""
+	}); r != "" {
+		return r + " - - -"
+	}
+	return sizeMarshal(m)
+}
+
+func sizeMarshal(m interface{}) string {
 	sz := -1
 	s1 := guard(func() string {
 		sz = m.(sizer).Size()
@@ -201,11 +223,70 @@ func doUM(full string, input, prefill []byte) string {
 		}
 	}
 	return guard(func() string {
-		if err := m.(unmarshaler).Unmarshal(input); err != nil {
+		// (each decode gets a private copy of the input: with enableunsafedecode the message may alias its input buffer)
+		if err := m.(unmarshaler).Unmarshal(append([]byte(nil), input...)); err != nil {
 			return "err"
 		}
-		return "ok " + render(m)
+		first := render(m)
+		// messages produced by Unmarshal share no mutable state: write through every pointer, slice and map of this one,
+		// then decode the same input again into a fresh message - it must come out as before
+		scribble(reflect.ValueOf(m), 0)
+		m2, _ := newMessage(full)
+		if err := m2.(unmarshaler).Unmarshal(append([]byte(nil), input...)); err != nil {
+			return "ok " + first + " !second-decode-failed"
+		}
+		if second := render(m2); second != first {
+			return "ok " + second + " !differs-after-an-earlier-decoded-message-was-modified-in-place"
+		}
+		return "ok " + first
 	})
+}
+
+// scribble overwrites, in place, everything reachable from a decoded message through exported fields: the targets of
+// scalar pointers, the elements of slices, the bytes of byte slices, the values of maps
+func scribble(v reflect.Value, depth int) {
+	if depth > 12 || !v.IsValid() {
+		return
+	}
+	switch v.Kind() {
+	case reflect.Ptr, reflect.Interface:
+		if !v.IsNil() {
+			scribble(v.Elem(), depth+1)
+		}
+	case reflect.Struct:
+		for i := 0; i < v.NumField(); i++ {
+			if v.Type().Field(i).PkgPath == "" { // exported
+				scribble(v.Field(i), depth+1)
+			}
+		}
+	case reflect.Slice:
+		for i := 0; i < v.Len(); i++ {
+			scribble(v.Index(i), depth+1)
+		}
+	case reflect.Map:
+		for _, k := range v.MapKeys() {
+			e := v.MapIndex(k)
+			if e.Kind() == reflect.Ptr || e.Kind() == reflect.Slice {
+				scribble(e, depth+1)
+			}
+		}
+	case reflect.Bool:
+		if v.CanSet() {
+			v.SetBool(!v.Bool())
+		}
+	case reflect.Int32, reflect.Int64:
+		if v.CanSet() {
+			v.SetInt(v.Int() ^ 0x55)
+		}
+	case reflect.Uint8, reflect.Uint32, reflect.Uint64:
+		if v.CanSet() {
+			v.SetUint(v.Uint() ^ 0x55)
+		}
+	case reflect.Float32, reflect.Float64:
+		if v.CanSet() {
+			v.SetFloat(v.Float() + 1)
+		}
+	}
 }
 
 // RU: the owning RUNTIME's own Unmarshal into the same generated Go type (its table-driven / fast-path decoder,
@@ -308,6 +389,8 @@ func Main(rt string) {
 			switch f[0] {
 			case "SM":
 				res = doSM(f[1], unhex(f[2]))
+			case "US":
+				res = doUS(f[1], unhex(f[2]))
 			case "UM":
 				res = doUM(f[1], unhex(f[2]), unhex(f[3]))
 			case "RT":
